@@ -32,6 +32,11 @@ def main():
             lps.append(lpgen.gen_random(r, nmax))
         else:
             lps.append(lpgen.gen_around_point(r, nmax))
+    # systematic family: a costed column singleton with one-sided bounds in an equation with one partner (and possibly a fixed third
+    # entry) - the presolve reduction that moves the singleton's bounds onto the partner; a lost bound turns a finite optimum into
+    # UNBOUNDED, and presolve verdicts are reported without a proof unless ENSURERAY is set
+    if not ck.args.replay:
+        lps += lpgen.gen_singleton_equations(r, 60 if ck.tier == "quick" else 288)
     corpus = lpgen.load_corpus("C02")
     if ck.args.replay:
         import json
